@@ -75,7 +75,7 @@ def checkRoute (g : Graph) (route : List Stop) : Except Err RouteCheck :=
         if f ≠ 0 ∨ l ≠ 0 then .ok ⟨false, 0, []⟩
         else
           match g.cap, g.init with
-          | some cap, some init => checkLoop g cap f rest 0 init 0 []
+          | some cap, some init => checkLoop g cap f rest (g.lo 0) init 0 []   -- the clock starts when the depot opens (repaired; pinned: 0)
           | _, _ => .error .type
       | _, none => .ok ⟨false, 0, []⟩
 
